@@ -116,7 +116,20 @@ class StreamBody(Contract):
                 self.log.append((name, list(ca.pos)))
                 return it2.st.reg_fun(AwaitableV("scope-" + name, {}))
             return it.st.reg_fun(cm)
+        if obj.eq(self.scope_obj) and name in ("__enter__", "__exit__"):
+            # the synchronous protocol of the same scope object: state and metrics only, no task group of its own
+            def scm(it2, ca, node2):
+                self.log.append((name, list(ca.pos)))
+                return V.VNone
+            return it.st.reg_fun(scm)
         return None
+
+    def entered_async(self, it):
+        """`async with`: the stream's scope owns a task group - what the source spawns belongs to the stream (it is awaited when
+        the stream ends and cancelled when the stream is abandoned or its consumer cancelled), not to whoever consumes it."""
+        names = [e[0] for e in self.log]
+        it.st.check("C06-P6:the-streams-scope-is-entered-as-an-asynchronous-scope(it-owns-the-task-group-for-what-the-source-spawns)",
+                    z3.BoolVal("__enter__" not in names and "__exit__" not in names and names[:1] == ["__aenter__"]))
 
     def on_await(self, it, aw, idx, node):
         if aw.kind.startswith("scope-"):
@@ -164,17 +177,19 @@ class StreamBody(Contract):
         return None
 
     def exits(self):
-        return [e for e in self.log if e[0] == "__aexit__"]
+        return [e for e in self.log if e[0] in ("__aexit__", "__exit__")]
 
     def on_return(self, it, ret):
         st = it.st
+        self.entered_async(it)
         st.check("P3:the-stream-ends-normally-exactly-when-the-source-does",
                  z3.BoolVal(self.terminal is not None and self.terminal[0] == "end"))
         st.check("P4:the-streams-scope-is-entered-once-and-left-once-when-the-stream-is-exhausted",
-                 z3.BoolVal(len([e for e in self.log if e[0] == "__aenter__"]) == 1 and len(self.exits()) == 1))
+                 z3.BoolVal(len([e for e in self.log if e[0] in ("__aenter__", "__enter__")]) == 1 and len(self.exits()) == 1))
 
     def on_raise(self, it, exc):
         st = it.st
+        self.entered_async(it)
         if self.closed:
             st.check("P4:an-abandoned-stream-leaves-its-scope-and-lets-GeneratorExit-through",
                      z3.And(z3.BoolVal(len(self.exits()) == 1), is_exc(it, exc, "GeneratorExit")))
